@@ -748,7 +748,7 @@ func product(t *testing.T, rec *stats.Recorder, mount string, every int, space s
 			}
 		}
 	}
-	rec.Exhaustive(space, evaluated)
+	rec.Exhaustive("["+hx.Gen()+"] "+space, evaluated)
 	tl.finish(t)
 }
 
@@ -838,7 +838,7 @@ func TestC05BadBody(t *testing.T) {
 			}
 		}
 	}
-	rec.Exhaustive("routed body-taking requests of the product with a malformed document", n)
+	rec.Exhaustive("["+hx.Gen()+"] routed body-taking requests of the product with a malformed document", n)
 	tl.finish(t)
 }
 
@@ -876,7 +876,7 @@ func TestC05BadQuery(t *testing.T) {
 			}
 		}
 	}
-	rec.Exhaustive("product with malformed (excess ')') query strings", n)
+	rec.Exhaustive("["+hx.Gen()+"] product with malformed (excess ')') query strings", n)
 	tl.finish(t)
 }
 
@@ -944,7 +944,7 @@ func TestC05LateRegistration(t *testing.T) {
 			}
 		}
 	}
-	rec.Exhaustive("late-registration pairs x requests x {old handler, new handler}", n)
+	rec.Exhaustive("["+hx.Gen()+"] late-registration pairs x requests x {old handler, new handler}", n)
 	tl.finish(t)
 }
 
